@@ -3,6 +3,7 @@
   concurrent histories of client calls (C11).
 -/
 import Whawty.Model.WebApi
+import Std.Data.HashSet
 namespace Whawty.Lin
 open Whawty Whawty.WebApi
 
@@ -98,5 +99,45 @@ def linCheck (h : List Op) (s0 : Spec) : Option (List Nat × Spec) :=
   match search h h.length s0 (List.range h.length) [] with
   | none => none
   | some (order, _) => (validLin h s0 order).map fun s => (order, s)
+
+/-! ### Search for a linearization that also explains the observed final state
+
+Two overlapping updates of one user are linearizable in either order, but only one order ends
+in the store content that was actually observed afterwards. `searchM` is the same Wing–Gong
+search with an acceptance test on the final state and a memo table of (remaining operations,
+state) pairs already found to be dead ends (Lowe's optimisation); nothing is proved about it:
+its result is re-validated by `validLin` and `final` in `linCheckFinal`. -/
+
+def searchM (h : List Op) (final : Spec → Bool) :
+    Nat → Spec → List Nat → List Nat → StateM (Std.HashSet (List Nat × Spec)) (Option (List Nat × Spec))
+  | 0, s, remaining, acc => pure (if remaining.isEmpty && final s then some (acc.reverse, s) else none)
+  | fuel + 1, s, remaining, acc => do
+    if remaining.isEmpty then
+      return (if final s then some (acc.reverse, s) else none)
+    if (← get).contains (remaining, s) then
+      return none
+    let r ← remaining.foldlM (init := (none : Option (List Nat × Spec))) fun found i =>
+      match found with
+      | some x => pure (some x)
+      | none =>
+        match h[i]? with
+        | none => pure none
+        | some op =>
+          if remaining.any (fun j => j ≠ i && (match h[j]? with | some b => b.res < op.inv | none => false)) then pure none
+          else
+            let (s', ret) := apply s op.call
+            if ret = op.ret then searchM h final fuel s' (remaining.filter (· ≠ i)) (i :: acc) else pure none
+    if r.isNone then modify (·.insert (remaining, s))
+    return r
+
+/-- The checker used on real histories: a linearization, re-validated by `validLin`, whose final
+    state passes `final` (= "is the store content observed when the agent was idle again"). -/
+def linCheckFinal (h : List Op) (s0 : Spec) (final : Spec → Bool) : Option (List Nat × Spec) :=
+  match (searchM h final h.length s0 (List.range h.length) []).run' {} with
+  | none => none
+  | some (order, _) =>
+    match validLin h s0 order with
+    | some s => if final s then some (order, s) else none
+    | none => none
 
 end Whawty.Lin
